@@ -8,6 +8,7 @@ from props.c19 import _norm
 
 ID = "C16"
 HEAP_SUMMARY = True      # end every program with the reference-level observation (BB.Model.Heap vs id() walk)
+UNIVERSAL_EVERY = 6      # every n-th case is a feature-rich random program (props/universal.py)
 LEAN_MODULE = "BB.Properties.C16"
 QUICK_N = 200
 THOROUGH_N = 2500
